@@ -53,6 +53,19 @@ def run(ctx):
             ctx.violation("%s raised %s on random data: %s" % (kind, type(ex).__name__, ex), {"stage": "random", "error": repr(ex), "replay": None})
     ctx.validate("Injector", t2, "random larger data sets", sabotage=D.sabotage, replay=rep(t2),
                  nontrivial=lambda t: t["ev"][0]["out"] != t["ev"][0]["in"])
+    # one injector OBJECT serving several calls with alternating containers and shapes (state must not leak between calls)
+    ts = []
+    for kind in KINDS:
+        for i in range(3 if q else 20):
+            seed = rng.randrange(10 ** 6)
+            import random as _r
+            try:
+                ts.append(D.session(_r.Random(seed), kind, 5, seed))
+            except Exception as ex:  # noqa
+                ctx.violation("%s: a reused injector object raised %s: %s" % (kind, type(ex).__name__, ex),
+                              {"stage": "sessions", "error": repr(ex), "replay": {"mode": "session", "kind": kind, "seed": seed}})
+    ctx.validate("Injector", ts, "sessions: one injector object, alternating ndarray / DataFrame calls", sabotage=D.sabotage,
+                 replay=lambda i: {"mode": "session", "kind": ts[i]["kind"], "seed": ts[i]["seed"]}, nontrivial=lambda t: True)
     # class frequencies of the resampling injector, aggregated over many calls
     t3 = [D.freq_trace(rng, frame, 60 if q else 400, rng.randrange(10 ** 6)) for frame in (False, True) for _ in range(2 if q else 6)]
     ctx.validate("Injector", t3, "aggregate class frequencies of LabelProbabilityInjector", replay=lambda i: {"mode": "freq", "frame": t3[i]["frame"], "reps": t3[i]["reps"], "seed": t3[i]["seed"]},
@@ -65,7 +78,9 @@ def replay(ctx, bundle):
     import random
     r = bundle["replay"]
     rng = random.Random(1)
-    if r["mode"] == "call":
+    if r["mode"] == "session":
+        ctx.validate("Injector", [D.session(random.Random(r["seed"]), r["kind"], 5, r["seed"])], "replay", replay=lambda i: r)
+    elif r["mode"] == "call":
         kind, n_, nc, frame, w, seed = r["spec"]
         e = D.call(rng, kind, n_, nc, frame, tuple(w) if w else None, seed)
         ctx.validate("Injector", [{"cfg": {}, "ev": [e]}], "replay", replay=lambda i: r)
